@@ -4720,6 +4720,11 @@ class PyCdlib:
         if child.inode is None:
             raise pycdlibexception.PyCdlibInternalError('Child file found without inode')
 
+        if child.inode.boot_info_table is not None:
+            # The table inside the file would have to be made anew from the
+            # new contents; that is not something done in place.
+            raise pycdlibexception.PyCdlibInvalidInput('Cannot modify a boot file with a boot info table in place')
+
         child.inode.update_fp(fp, length)
 
         # Remove the old size from the PVD size.
@@ -4786,6 +4791,10 @@ class PyCdlib:
                 abs_offset = abs_extent_loc * self.logical_block_size + offset
             elif isinstance(record, udfmod.UDFFileEntry):
                 abs_offset = record.extent_location() * self.logical_block_size
+            elif isinstance(record, eltorito.EltoritoEntry):
+                # An El Torito entry that boots this file: where the file
+                # starts and how much of it is loaded do not change.
+                continue
             else:
                 # This should never happen
                 raise pycdlibexception.PyCdlibInternalError('Invalid record type')
